@@ -129,6 +129,7 @@ def run(tier: str, seed: int, reg: Any, jobs: int = 16) -> list:
     out.append({"name": "PFR CMPA/CFPA of every family: size, parse/export identity, binary-config-binary with seeded values", "function": "spsdk.pfr.pfr",
                 "method": "every family of the live database", "bound": f"{n} areas", "cases": max(n, 1), "exhaustive": True, "label": "bounded", "failures": fails2[:12]})
     out.append(_xmcd(tier))
+    out.append(_trustzone(tier, seed))
     return out
 
 
@@ -195,3 +196,69 @@ def _xmcd(tier: str = "thorough") -> dict:
     return {"name": "XMCD header size field against the exported block", "function": "spsdk.image.xmcd.xmcd:XMCD.load_from_config/export/parse",
             "method": ("every" if tier != "quick" else "one family per") + " (memory type, configuration type) of the live database; template, wrong size, stale size, omitted size", "bound": f"{n} configurations",
             "cases": max(n, 1), "exhaustive": tier != "quick", "label": "bounded", "failures": fails}
+
+
+def _trustzone(tier: str, seed: int) -> dict:
+    """TrustZone preset blocks of every family in the database: the block is one little-endian word per preset register, in preset order;
+    a register takes the configured value whenever one is given - as a number (0 included) or as a string - and the preset otherwise;
+    parse(export) exports the same bytes; the generated template loads and exports the pure preset block."""
+    import random
+    import struct
+
+    from spsdk.image.trustzone import TrustZone
+    from spsdk.utils.database import DatabaseManager, get_db
+    from spsdk.utils.misc import load_configuration, value_to_int
+
+    rnd = random.Random(seed + 12)
+    fams = sorted(TrustZone.get_supported_families())
+    if tier == "quick":
+        fams = fams[:: max(1, len(fams) // 6)]
+    fails: list = []
+    n = 0
+    for fam in fams:
+        try:
+            presets = DatabaseManager().db.load_db_cfg_file(get_db(fam, "latest").get_file_path(DatabaseManager.TZ, "reg_spec"))
+        except Exception as e:  # pylint: disable=broad-except
+            fails.append({"inputs": {"family": fam}, "detail": f"cannot read the preset table: {e}", "obligation": "trustzone-block-is-config-over-presets"})
+            continue
+        names = list(presets)
+        ref = [value_to_int(v) for v in presets.values()]
+        for trial in range(4 if tier == "quick" else 12):
+            n += 1
+            picked = rnd.sample(names, min(len(names), rnd.choice([0, 1, 3, 8])))
+            customs: dict = {}
+            for name in picked:
+                v = rnd.choice([0, 0, 1, 0xFFFFFFFF, rnd.getrandbits(32)])
+                customs[name] = rnd.choice([v, v, hex(v), str(v)])
+            problems: list = []
+            try:
+                blob = TrustZone.from_config({"family": fam, "revision": "latest", "trustZonePreset": dict(customs)}).export()
+                want = [value_to_int(customs[nm]) if nm in customs else ref[i] for i, nm in enumerate(names)]
+                if len(blob) != 4 * len(names) or len(blob) != TrustZone.get_preset_data_size(fam):
+                    problems.append(f"block has {len(blob)} bytes for {len(names)} preset registers")
+                else:
+                    got = list(struct.unpack(f"<{len(names)}I", blob))
+                    bad = [(names[i], hex(got[i]), hex(want[i])) for i in range(len(names)) if got[i] != want[i]]
+                    if bad:
+                        problems.append(f"register words differ from configuration-over-presets (name, exported, expected): {bad[:3]}")
+                    if TrustZone.from_binary(fam, blob).export() != blob:
+                        problems.append("parse(export) exports differently")
+                if trial == 0:
+                    tmpl = load_configuration_text(TrustZone.generate_config_template(fam)[f"{fam}_tz"])
+                    if TrustZone.from_config(tmpl).export() != struct.pack(f"<{len(ref)}I", *ref):
+                        problems.append("the generated template does not export the preset block")
+            except Exception as e:  # pylint: disable=broad-except
+                problems.append(f"{type(e).__name__}: {e}")
+            if problems and len(fails) < 4:
+                fails.append({"inputs": {"family": fam, "customizations": {k: customs[k] for k in list(customs)[:4]}}, "detail": "; ".join(problems),
+                              "obligation": "trustzone-block-is-config-over-presets"})
+    del load_configuration
+    return {"name": "TrustZone preset block = configuration over presets, for the families of the database", "function": "spsdk.image.trustzone:TrustZone.from_config/export/from_binary",
+            "method": "random subsets of registers customised with 0, all-ones and random words given as numbers or strings; struct reference over the preset table",
+            "bound": f"{n} configurations over {len(fams)} families", "cases": n, "label": "bounded", "failures": fails}
+
+
+def load_configuration_text(text: str) -> dict:
+    from ruamel.yaml import YAML
+
+    return dict(YAML(typ="safe").load(text))
